@@ -32,6 +32,20 @@ def generate(repo):
     rhs = " ".join(po.group(1).split())
     uncond = rhs == "clang_sys::CXTranslationUnit_DetailedPreprocessingRecord" and len(re.findall(r"parse_options", nb)) == 2 \
         and re.search(r"clang::TranslationUnit::parse\((?:[^;]*?)parse_options,?\s*\)", nb, re.S) is not None
+    # ir/analysis/derive.rs CannotDerive::constrain_type: order of the early answers
+    dv = read(repo, "bindgen/ir/analysis/derive.rs")
+    ct = strip_comments(body_after(dv, r"fn constrain_type\(&mut self, item: &Item, ty: &Type\) -> CanDerive\s*", "bindgen/ir/analysis/derive.rs"))
+    anchors = [("notAllowlisted", r"if !self\.ctx\.allowlisted_items\(\)\.contains\(&item\.id\(\)\)"),
+               ("byName", r"if self\.derive_trait\.not_by_name\(self\.ctx, item\)"),
+               ("opaque", r"if item\.is_opaque\(self\.ctx, &\(\)\)"),
+               ("kindMatch", r"match \*ty\.kind\(\)")]
+    pos = []
+    for nm, rx in anchors:
+        mm = re.search(rx, ct)
+        if not mm:
+            raise TranslateError("bindgen/ir/analysis/derive.rs: constrain_type: guard `%s` not found" % nm)
+        pos.append((mm.start(), nm))
+    guard_order = [nm for _, nm in sorted(pos)]
     out = ["namespace BindgenModel.Generated\n",
            "/-- `Function::codegen`: is the overload suffix appended to `canonical_name` before `link_name_attr` is",
            "decided by `names_will_be_identical_after_mangling(&canonical_name, …)`? -/",
@@ -39,5 +53,7 @@ def generate(repo):
            "/-- `BindgenContext::new`: `parse_options` is exactly `CXTranslationUnit_DetailedPreprocessingRecord`, bound once",
            "and passed to `TranslationUnit::parse` -/",
            "def preprocessingRecordUnconditional : Bool := %s\n" % ("true" if uncond else "false"),
+           "/-- `CannotDerive::constrain_type`: the early answers in the order they are written -/",
+           "def deriveGuardOrder : List String := [" + ", ".join('"%s"' % g for g in guard_order) + "]\n",
            "end BindgenModel.Generated\n"]
     return "\n".join(out)
